@@ -9,6 +9,7 @@ PRELUDE = r'''
 #![allow(unused_imports, unused_variables, dead_code, unused_mut, unused_parens)]
 use vstd::prelude::*;
 verus! {
+global size_of usize == 8;   // standing assumption: 64-bit target
 #[derive(Clone, Copy, PartialEq, Eq, Structural)]
 pub struct ExprId(pub u32);
 pub type Target = ExprId;
@@ -38,6 +39,58 @@ pub open spec fn uni_shape_ok<A: AirStub>(air: &A, ov: &OpenedValuesTargets, pre
     &&& ov.quotient_chunks_targets@.len() == qd
     &&& forall|k: int| 0 <= k < ov.quotient_chunks_targets@.len() ==> (#[trigger] ov.quotient_chunks_targets@[k])@.len() == sp_dim()
     &&& (ov.random_targets matches Some(r) ==> r@.len() == sp_dim())
+}
+
+// ---------------------------------------------------------------- FRI proof targets: the fields the validation prefix reads
+pub struct CommitPhaseProofStepTargets { pub log_arity: usize, pub sibling_coefficients: Vec<Target> }
+pub struct QueryProofTargets { pub commit_phase_openings: Vec<CommitPhaseProofStepTargets> }
+pub struct Opaque { pub _p: () }
+pub struct FriProofTargets {
+    pub commit_phase_commits: Vec<Opaque>,
+    pub commit_pow_witnesses: Vec<Opaque>,
+    pub query_proofs: Vec<QueryProofTargets>,
+    pub final_poly: Vec<Target>,
+    pub log_arities: Vec<usize>,
+}
+pub struct CircuitBuilderStub { pub _p: () }
+impl CircuitBuilderStub {
+    #[verifier::external_body] pub fn push_scope(&mut self, s: &str) {}
+    #[verifier::external_body] pub fn alloc_private_inputs(&mut self, count: usize, label: &'static str) -> (r: Vec<Target>) ensures r@.len() == count { unimplemented!() }
+}
+/// native p3-fri CommitPhaseProofStep: `log_arity: u8` is prover-supplied
+pub struct CommitPhaseProofStep { pub log_arity: u8, pub opening_proof: Opaque }
+#[verifier::external_body] pub fn mmcs_proof_new(circuit: &mut CircuitBuilderStub, p: &Opaque) -> Opaque { unimplemented!() }
+pub struct CommitPhaseProofStepTargetsFull { pub log_arity: usize, pub sibling_coefficients: Vec<Target>, pub opening_proof: Opaque }
+pub open spec fn seq_sum(s: Seq<usize>) -> int decreases s.len() { if s.len() == 0 { 0 } else { seq_sum(s.drop_last()) + s.last() } }
+pub open spec fn pow2i(k: int) -> int decreases k { if k <= 0 { 1 } else { 2 * pow2i(k - 1) } }
+
+/// `1usize << k` is 2^k when it does not overflow
+pub proof fn lemma_shl_is_pow2(k: usize)
+    requires k < 64
+    ensures (1usize << k) == pow2i(k as int)
+    decreases k
+{
+    if k == 0 {
+        assert((1usize << 0usize) == 1) by (bit_vector);
+    } else {
+        lemma_shl_is_pow2((k - 1) as usize);
+        let j = (k - 1) as usize;
+        assert(j < 63 ==> (1usize << ((j + 1) as usize)) == 2 * (1usize << j)) by (bit_vector);
+    }
+}
+
+/// what the fold/query code after the prefix indexes with (lengths agree with the global schedule)
+pub open spec fn fri_shape_ok(fp: &FriProofTargets, n_betas: nat, ibq: Seq<Vec<Target>>, log_blowup: nat) -> bool {
+    &&& n_betas > 0
+    &&& fp.commit_phase_commits@.len() == n_betas && fp.commit_pow_witnesses@.len() == n_betas && fp.log_arities@.len() == n_betas
+    &&& fp.query_proofs@.len() == ibq.len() && ibq.len() > 0
+    &&& forall|q: int| 0 <= q < ibq.len() ==> (#[trigger] ibq[q])@.len() == ibq[0]@.len()
+    &&& forall|q: int| 0 <= q < fp.query_proofs@.len() ==> (#[trigger] fp.query_proofs@[q]).commit_phase_openings@.len() == n_betas
+    &&& forall|q: int, p: int| 0 <= q < fp.query_proofs@.len() && 0 <= p < n_betas ==>
+            (#[trigger] fp.query_proofs@[q].commit_phase_openings@[p]).log_arity == fp.log_arities@[p]
+            && fp.query_proofs@[q].commit_phase_openings@[p].sibling_coefficients@.len() == (pow2i(fp.log_arities@[p] as int) - 1) * sp_dim()
+    &&& ibq[0]@.len() >= seq_sum(fp.log_arities@) + log_blowup
+    &&& fp.final_poly@.len() == pow2i(ibq[0]@.len() - seq_sum(fp.log_arities@) - log_blowup)
 }
 } // verus!
 '''
@@ -74,5 +127,70 @@ def build():
     ])
     u.text('verus! {')
     u.emit(v)
+    u.text('}')
+
+    # ---------------------------------------------------------------- FRI: validation prefix of verify_fri_circuit (R13)
+    V = 'recursion/src/pcs/fri/verifier.rs'
+    f = u.extract(V, '', 'verify_fri_circuit', 'verify_fri_circuit[validation prefix]')
+    f.set_sig('R11', 'fn verify_fri_circuit(builder: &mut CircuitBuilderStub, fri_proof_targets: &FriProofTargets, alpha: Target, betas: &[Target], '
+                     'index_bits_per_query: &[Vec<Target>], commitments_with_opening_points: &Opaque, log_blowup: usize, permutation_config: Option<Opaque>) '
+                     '-> Result<usize, VerificationError>')
+    f.truncate_after('let actual_final_poly_len = fri_proof_targets.final_poly.len(); if actual_final_poly_len != expected_final_poly_len {',
+                     'return Err(VerificationError::InvalidProofShape(errmsg())); } Ok(log_final_poly_len)',
+                     'suffix builds the fold/query constraints; it indexes with the lengths established here')
+    f.erase_macro('tracing::debug!')
+    f.erase_error_messages('VerificationError::InvalidProofShape')
+    f.rewrite('R11', 'let ef_dim = EF::DIMENSION;', 'let ef_dim = challenge_dimension();')
+    f.rewrite('R6', 'let total_log_reduction: usize = log_arities.iter().sum();',
+              'let mut total_log_reduction: usize = 0; for s_ in 0..log_arities.len() { total_log_reduction = total_log_reduction + log_arities[s_]; }')
+    f.rewrite('R6', 'index_bits_per_query .iter() .any(|v| v.len() != log_max_height)',
+              '({ let mut any_ = false; for k_ in 0..index_bits_per_query.len() { let v = &index_bits_per_query[k_]; if v.len() != log_max_height { any_ = true; } } any_ })')
+    f.rewrite('R5', 'for (q, query_proof) in fri_proof_targets.query_proofs.iter().enumerate() {', 'for q in 0..fri_proof_targets.query_proofs.len() { let query_proof = &fri_proof_targets.query_proofs[q];')
+    f.rewrite('R5', 'for (phase, opening) in query_proof.commit_phase_openings.iter().enumerate() {', 'for phase in 0..query_proof.commit_phase_openings.len() { let opening = &query_proof.commit_phase_openings[phase];')
+    f.rewrite('R6', '''log_max_height .checked_sub(total_log_reduction) .and_then(|x| x.checked_sub(log_blowup)) .ok_or_else(|| { VerificationError::InvalidProofShape(errmsg()) })?''',
+              '''(match log_max_height.checked_sub(total_log_reduction) { Some(x) => match x.checked_sub(log_blowup) { Some(y) => y, None => { return Err(VerificationError::InvalidProofShape(errmsg())); } }, None => { return Err(VerificationError::InvalidProofShape(errmsg())); } })''')
+    f.requires('log_arity_is_a_byte', 'forall|p: int| 0 <= p < fri_proof_targets.log_arities@.len() ==> #[trigger] fri_proof_targets.log_arities@[p] <= 255')
+    f.requires('realistic_sizes', 'fri_proof_targets.log_arities@.len() < 0x1_0000_0000 && sp_dim() < 0x1_0000')
+    f.loop('for s_ in 0..log_arities.len()', invariants=[
+        ('sum', 'total_log_reduction == seq_sum(log_arities@.take(s_ as int)) && total_log_reduction <= 255 * s_'),
+        ('pre', 'log_arities@.len() < 0x1_0000_0000 && forall|p: int| 0 <= p < log_arities@.len() ==> #[trigger] log_arities@[p] <= 255'),
+    ])
+    f.rewrite('SPEC', 'total_log_reduction = total_log_reduction + log_arities[s_]; }', '''total_log_reduction = total_log_reduction + log_arities[s_];
+            proof { assert(log_arities@.take(s_ as int + 1).drop_last() =~= log_arities@.take(s_ as int)); } }
+        proof { assert(log_arities@.take(log_arities@.len() as int) =~= log_arities@); }''')
+    f.loop('for k_ in 0..index_bits_per_query.len()', invariants=[
+        ('any', 'any_ == exists|j: int| 0 <= j < k_ && (#[trigger] index_bits_per_query@[j])@.len() != log_max_height'),
+    ])
+    f.loop('for q in 0..fri_proof_targets.query_proofs.len()', invariants=[
+        ('pre', 'log_arities@ == fri_proof_targets.log_arities@ && log_arities@.len() == num_phases && ef_dim == sp_dim()'),
+        ('done', '''forall|qq: int| 0 <= qq < q ==> (#[trigger] fri_proof_targets.query_proofs@[qq]).commit_phase_openings@.len() == num_phases
+                && forall|pp: int| 0 <= pp < num_phases ==> (#[trigger] fri_proof_targets.query_proofs@[qq].commit_phase_openings@[pp]).log_arity == log_arities@[pp]
+                    && fri_proof_targets.query_proofs@[qq].commit_phase_openings@[pp].sibling_coefficients@.len() == (pow2i(log_arities@[pp] as int) - 1) * sp_dim()'''),
+    ])
+    f.loop('for phase in 0..query_proof.commit_phase_openings.len()', invariants=[
+        ('pre', 'log_arities@ == fri_proof_targets.log_arities@ && log_arities@.len() == num_phases && ef_dim == sp_dim() && query_proof.commit_phase_openings@.len() == num_phases'),
+        ('done', '''forall|pp: int| 0 <= pp < phase ==> (#[trigger] query_proof.commit_phase_openings@[pp]).log_arity == log_arities@[pp]
+                    && query_proof.commit_phase_openings@[pp].sibling_coefficients@.len() == (pow2i(log_arities@[pp] as int) - 1) * sp_dim()'''),
+    ])
+    f.after('let expected_coeffs = ((1usize << expected_log_arity) - 1) * ef_dim;', 'proof { lemma_shl_is_pow2(expected_log_arity); }')
+    f.after('let expected_final_poly_len = 1 << log_final_poly_len;', 'proof { lemma_shl_is_pow2(log_final_poly_len); }')
+    f.ensures('ok_implies_well_formed', 'ret is Ok ==> fri_shape_ok(fri_proof_targets, betas@.len(), index_bits_per_query@, log_blowup as nat)')
+    f.ensures('malformed_is_invalid_proof_shape', 'ret matches Err(e) ==> e is InvalidProofShape')
+    u.text('verus! {')
+    u.emit(f)
+    u.text('}')
+
+    # ---------------------------------------------------------------- CommitPhaseProofStepTargets::new : no precondition on the proof-supplied byte
+    T = 'recursion/src/pcs/fri/targets.rs'
+    n = u.extract(T, r'Recursive<EF> for CommitPhaseProofStepTargets<F, EF, RecMmcs>', 'new', 'CommitPhaseProofStepTargets::new')
+    n.set_sig('R11', 'fn commit_phase_step_new(circuit: &mut CircuitBuilderStub, input: &CommitPhaseProofStep) -> CommitPhaseProofStepTargetsFull')
+    n.rewrite('R11', 'EF::DIMENSION', 'challenge_dimension()')
+    n.rewrite('R11', 'RecMmcs::Proof::new(circuit, &input.opening_proof)', 'mmcs_proof_new(circuit, &input.opening_proof)')
+    n.rewrite('R11', 'Self { log_arity, sibling_coefficients, opening_proof, _phantom: PhantomData, }', 'CommitPhaseProofStepTargetsFull { log_arity, sibling_coefficients, opening_proof }')
+    n.requires('realistic_dimension', 'sp_dim() < 0x1_0000')
+    n.ensures('layout', 'ret.log_arity == input.log_arity && ret.sibling_coefficients@.len() == (pow2i(input.log_arity as int) - 1) * sp_dim()')
+    n.after('let arity = 1usize << log_arity;', 'proof { lemma_shl_is_pow2(log_arity); }')
+    u.text('verus! {')
+    u.emit(n)
     u.text('}')
     return u
